@@ -18,6 +18,25 @@ class Producer:
         self.guard = guard          # bounds hypothesis on idx
 
 
+def z3util_vars(t):
+    """free constants (uninterpreted, arity 0) of a term"""
+    out, seen = [], set()
+
+    def walk(e):
+        if e.get_id() in seen:
+            return
+        seen.add(e.get_id())
+        if z3.is_app(e):
+            if e.num_args() == 0 and e.decl().kind() == z3.Z3_OP_UNINTERPRETED:
+                out.append(e)
+            for c in e.children():
+                walk(c)
+        elif z3.is_quantifier(e):
+            walk(e.body())
+    walk(t)
+    return out
+
+
 class BuiltinMixin:
     # ------------------------------------------------------------------ generic iteration over a symbolic source
     def generic_iter(self, src, path):
@@ -160,7 +179,7 @@ class BuiltinMixin:
 
     def iterable(self, v, path):
         """normalise things one can iterate over"""
-        if isinstance(v, (VList, VTuple, VSeq, VHeapList, VDict, VRange)):
+        if isinstance(v, (VList, VTuple, VSeq, VHeapList, VDict, VRange, VStack)):
             return v
         if isinstance(v, VStr):
             try:
@@ -272,6 +291,8 @@ class BuiltinMixin:
             return self.truth(self.ev(elt, path), path)
         g = gens[k]
         src = self.iterable(self.ev(g.iter, path), path)
+        if isinstance(src, VStack):
+            return self.stack_quant(universal, elt, gens, k, src, path)
         if self.is_concrete_iter(src):
             parts = []
             for item in self.concrete_items(src):
@@ -308,6 +329,53 @@ class BuiltinMixin:
         if universal:
             return mkquant(True, i, z3.Implies(cond, inner))
         return mkquant(False, i, z3.And(cond, inner))
+
+    def stack_quant(self, universal, elt, gens, k, src, path):
+        """all(...) / any(...) over a list kept as a stack: a structurally recursive function of the cons list.  The condition may
+        mention the element and constants only; functions are shared by their text, so code and specification get one symbol."""
+        ctx = self.ctx
+        g = gens[k]
+        if k != len(gens) - 1 or not isinstance(g.target, ast.Name):
+            raise OutOfReach('nested generator over a stack')
+        S_ = ctx.sorts.stack_sort(src.elem_kind)
+        es = ctx.sorts.sort_of(src.elem_kind)
+        x = z3.Const('x!stackelem', es)
+        sub = Path((), dict(path.env))
+        sub.heap = dict(path.heap)
+        self.bind_target(g.target, ctx.val_of(src.elem_kind, x), sub)
+        ctx.generic_depth += 1
+        try:
+            cond = z3.BoolVal(True)
+            for c in g.ifs:
+                cond = z3.And(cond, self.truth(self.ev(c, sub), sub))
+            body = self.truth(self.ev(elt, sub), sub)
+        finally:
+            ctx.generic_depth -= 1
+        def canon(t):
+            # commutative connectives with their arguments in textual order: the same condition gets the same text
+            if z3.is_app(t) and (z3.is_or(t) or z3.is_and(t)):
+                kids = sorted((canon(c) for c in t.children()), key=lambda c: c.sexpr())
+                return (z3.Or if z3.is_or(t) else z3.And)(*kids)
+            if z3.is_app(t) and t.num_args() > 0 and not z3.is_quantifier(t):
+                return t.decl()(*[canon(c) for c in t.children()])
+            return t
+        step = canon(ssimp(z3.Implies(cond, body) if universal else z3.And(cond, body)))
+        free = [v for v in z3util_vars(step) if not v.eq(x)]
+        if free:
+            raise OutOfReach('condition of all() / any() over a stack mentions more than the element')
+        key = ('stack_quant', universal, str(es), step.sexpr())
+        if key not in ctx.recfuncs:
+            import os
+            if os.environ.get('PYVC_DEBUG_STACKQ'):
+                print('STACKQ', key[3][:300], flush=True)
+            ctx.counter += 1
+            f = z3.RecFunction(f"{'all' if universal else 'any'}_on_stack!{ctx.counter}", S_, z3.BoolSort())
+            s = z3.Const('s!stack', S_)
+            here = z3.substitute(step, (x, S_.top(s)))
+            rec = f(S_.below(s))
+            z3.RecAddDefinition(f, [s], z3.If(S_.is_SNil(s), z3.BoolVal(universal), z3.And(here, rec) if universal else z3.Or(here, rec)))
+            ctx.recfuncs[key] = f
+        return ctx.recfuncs[key](src.t)
 
     def seq_numeric(self, kind, v, path):
         """sum / prod of an already evaluated list value"""
